@@ -490,6 +490,28 @@ func (sc *c11Scenario) laws(s *simrt.Sim, add func(clause, fp, detail string)) {
 		}
 	}
 	// (a panicking effect / OnNext during Subscribe was tried here and withdrawn: what the library owes after a user callback panicked is not part of the property, DESIGN.md §9, 17)
+	// the MonadIO a FlatMap function returns may carry handlers of its own (it was built for somebody who subscribes to it):
+	// inside a composition it is just the next step - its effect runs once, in line, and its value is the composition's
+	{
+		hI := fpgo.Handler.New()
+		innerRuns, innerTID, callerTID := 0, -1, -2
+		comp := fpgo.MonadIOJustGenerics(20).FlatMap(func(v int) *fpgo.MonadIODef[int] {
+			return fpgo.MonadIONewGenerics(func() int { innerRuns++; innerTID = s.Self().ID; s.Yield(); return v + 1 }).ObserveOn(hI).SubscribeOn(hI)
+		})
+		var eop *Op
+		et := s.Go("eval-inner-with-handlers", func() {
+			callerTID = s.Self().ID
+			eop = sc.h.Do("eval-inner-with-handlers", "Eval", nil, func() (interface{}, error) { return comp.Eval(), nil })
+		})
+		if !s.WaitUntilTimeout(et.Done, 5*time.Minute) || eop == nil || eop.Panic != "" || eop.Val != 21 || innerRuns != 1 || innerTID != callerTID {
+			v := interface{}(nil)
+			if eop != nil {
+				v = eop.Val
+			}
+			add("value", "FlatMap-function-returning-a-MonadIO-with-handlers", fmt.Sprintf("Just(20).FlatMap(v -> New(v+1).ObserveOn(h).SubscribeOn(h)).Eval() = %v (want 21), inner effect ran %d times (want 1) on T%d (evaluating thread T%d)", v, innerRuns, innerTID, callerTID))
+		}
+		hI.Close()
+	}
 	// re-entrancy: an OnNext that subscribes the same MonadIO again and re-configures it - every (nested) Subscribe
 	// is an evaluation of its own: the effect and OnNext once per Subscribe
 	{
